@@ -81,6 +81,23 @@ def run(ctx, chk):
                'half-width depends on %s%s' % (sorted(d), '; NOT ALLOWED: %s' % sorted(extra) if extra else ''))
         chk.ob('C05.E2', 'now:ub-deps-required', bound_l in d and drift_l in d, where,
                'half-width must depend on the stored bound and the drift rate; depends on %s' % sorted(d))
+        # ---- E7 earliest <= latest: the half-width is non-negative under the stated ranges
+        from ..arith import Iv, IntervalEval
+        lo_a, hi_a, _ = common.interval_of(info['atoms'], m.age_unit(info))
+        if lo_a <= hi_a:
+            def lr(v, info=info, lo_a=lo_a, hi_a=hi_a):
+                if v == m.leaf_self('bound_nsec'):
+                    return Iv(0, (1 << 60) - 1)
+                if v == m.leaf_self('max_drift_ppb'):
+                    return Iv(0, 999_999_999)
+                if v[0] == 't' and v[1] == 'ts_sub':
+                    l = common.lin_time(v)
+                    if l is not None and mono is not None and l.key() == common.Lin(m.age_unit(info)).key() and l.const == 0:
+                        return Iv(max(lo_a, -(1 << 32) * 10**9), min(hi_a, (1 << 32) * 10**9))
+                return None
+            iv = IntervalEval(lr).ev(ub)
+            chk.ob('C05.E7', 'now:half-width-nonnegative', iv is not None and iv.lo is not None and iv.lo >= 0, where,
+                   'half-width evaluates to %s for bound >= 0, 0 <= drift < 1e9 and mono - as_of in [%s, %s] (so earliest <= latest)' % (iv, lo_a, hi_a))
         # ---- E4 sink
         if not (ub[0] == 't' and ub[1] == 'ts_nanoseconds'):
             chk.ob('C05.E4', 'now:ub-sink-nanoseconds', False, where,
